@@ -13,7 +13,7 @@ PROP = "C03"
 LEVEL = "exploration"
 SHARDS = {"quick": 4, "thorough": 16}
 TIME_CAP = {"quick": 200, "thorough": 2400}
-KINDS = ["random", "consistent", "moving", "level", "inverted", "vertical", "pure-pitch", "pure-roll", "sparse"]
+KINDS = ["random", "consistent", "moving", "level", "inverted", "vertical", "pure-pitch", "pure-roll", "sparse", "integer"]
 REGIONS = {"hist:" + k: 12 for k in KINDS}
 TOL_UNIT = 1e-9
 
@@ -128,7 +128,16 @@ def setup(pr):
 def make_history(rng, kind, n, psi=None):
     gscale = gens.logu(rng, 1e-3, 3.0)
     g = rng.standard_normal((n, 3)) * gscale
-    if kind in ("random", "sparse"):
+    if kind == "integer":                              # raw register counts / hand-typed whole numbers; also handed over as int arrays and lists
+        g = rng.integers(-3, 4, (n, 3)).astype(float)
+        g[~np.any(g, axis=1)] = [1.0, 0, 0]
+        a = rng.integers(-9, 10, (n, 3)).astype(float) + np.array([0, 0, 12.0])
+        m = rng.integers(-40, 41, (n, 3)).astype(float) + np.array([50.0, 0, 0])
+        for i in range(n):                             # keep the rows whole numbers: redraw instead of nudging
+            while not (np.radians(1.0) < rq.vangle(a[i], m[i]) < np.radians(179.0)):
+                m[i] = rng.integers(-40, 41, 3).astype(float) + np.array([50.0, 0, 0])
+        return g, a, m
+    elif kind in ("random", "sparse"):
         a = rng.standard_normal((n, 3)) * gens.logu(rng, 1e-2, 1e2)
         m = rng.standard_normal((n, 3)) * gens.logu(rng, 1e-2, 1e3)
         if kind == "sparse":                           # exactly-zero components (quantised or axis-aligned readings)
@@ -328,11 +337,25 @@ def check(case, ctx):
         else:
             ctx.returned(out, route=name)
             validity(ctx, name, rep, out.value, n, region)
+        if case.region == "hist:integer" and out.ok:
+            base = np.asarray(out.value)
+            for lab, conv in (("int64", lambda x: np.round(x).astype(np.int64)), ("nested lists of int", lambda x: np.round(x).astype(np.int64).tolist())):
+                np.random.seed(int(case.p["seed"]))
+                o2 = call(fn, F, conv(g), conv(a), conv(m), {k: (dict(v) if isinstance(v, dict) else v) for k, v in P.items()})
+                if not ctx.returned(o2, clause="no-exception[whole-number samples given as %s]" % lab, route=name, region="form:integer-typed samples"):
+                    continue
+                alt = np.asarray(o2.value)
+                same = alt.shape == base.shape and alt.dtype != object and bool(np.allclose(np.asarray(alt, float), np.asarray(base, float), rtol=0, atol=1e-12, equal_nan=True))
+                ctx.ok("whole-number samples give the same attitudes whether typed as float, int64 or lists", same,
+                       {"form": lab, "max_diff": float(np.nanmax(np.abs(np.asarray(alt, float) - np.asarray(base, float)))) if alt.shape == base.shape and alt.dtype != object else None},
+                       route=name, region="form:integer-typed samples")
         if len(ctx.viols) > nv:
             # mechanism label: the exact coincidences (zero components) of the first sample the estimator fails on
             k = first_failing_sample(fn, F, g, a, m, P, n)
             lab = pose_class(a[k], m[k], needs) if k is not None else "pose:unknown"
             for v in ctx.viols[nv:]:
+                if str(v.region).startswith("form:"):
+                    continue
                 v.region = lab
                 if isinstance(v.detail, dict):
                     v.detail.update(failing_sample=k, acc=a[k] if k is not None else None, mag=m[k] if k is not None else None, history=region)
